@@ -36,6 +36,21 @@ Lemma proj_unimplemented_is_empty :
   unimplemented_returns = "tapkee::ProjectingFunction()" /\ default_ctor_init = "implementation()".
 Proof. split; vm_compute; reflexivity. Qed.
 
+(* wave 4: project() of the returned implementation writes no member, no static, no mutable: it is a function *)
+Lemma mpi_project_pure_obligation : mpi_pure_b mpi_purity = true.
+Proof. vm_compute. reflexivity. Qed.
+
+Theorem mpi_project_writes_nothing :
+  mp_nonlocal_writes mpi_purity = [] /\ mp_static_decls mpi_purity = 0 /\ mp_mutable_members mpi_purity = 0 /\
+  mp_file_statics mpi_purity = 0 /\ mp_nreturns mpi_purity = 1 /\ mp_param mpi_purity = "constDenseVector&vec".
+Proof.
+  pose proof mpi_project_pure_obligation as H. unfold mpi_pure_b in H. rewrite !andb_true_iff in H.
+  destruct H as [[[[[Hw Hs] Hm] Hf] Hr] Hp].
+  destruct (mp_nonlocal_writes mpi_purity) as [|w ws]; [|discriminate Hw].
+  apply Nat.eqb_eq in Hs, Hm, Hf, Hr. apply String.eqb_eq in Hp.
+  repeat split; assumption.
+Qed.
+
 (* ---- what they mean ---- *)
 Lemma entry_ok e : In e proj_table -> entry_ok_b e = true.
 Proof. intros H. pose proof proj_table_entries_ok as A. rewrite forallb_forall in A. apply A. exact H. Qed.
